@@ -135,20 +135,24 @@ class RevComp(Harness):
 
 class Stranded(Harness):
     name = "strand_specific"
-    functions = ("get_strand_specific_sequences", "EncodedArray[starts:stops] ragged slicing", "np.where on EncodedRaggedArray")
-    bounds = {"quick": "sequence of 3 symbolic bases (ascii upper/lower, ACGTn), 1-2 intervals with every 0<=start<stop<=3 and every strand",
+    functions = ("get_strand_specific_sequences", "EncodedArray[starts:stops] ragged slicing", "np.where on EncodedRaggedArray",
+                 "GenomicSequence.extract_intervals(stranded=True) (dict backend)")
+    bounds = {"quick": "sequence of 3 symbolic bases (ascii upper/lower, ACGTn), 1-2 intervals with every 0<=start<stop<=3 and every strand; "
+                       "the genome sequence object with 0-2 intervals, 0<=start<=stop<=3",
               "thorough": "sequence of 4-5 bases, 1-2 intervals"}
 
     def skeletons(self, tier, seed):
+        gs = [dict(kind="ACGTnEncoding", N=3, m=m, api="genomic_sequence") for m in (0, 1, 2)]     # Genome sequence object, 0-2 intervals
         if tier == "quick":
-            return [dict(kind=k, N=3, m=m) for k in ("ascii", "ACGTnEncoding") for m in (1, 2)]
-        return [dict(kind=k, N=N, m=m) for k in ("ascii", "ACGTnEncoding", "ACTGEncoding") for N in (4, 5) for m in (1, 2)][:-1]
+            return [dict(kind=k, N=3, m=m) for k in ("ascii", "ACGTnEncoding") for m in (1, 2)] + gs
+        return [dict(kind=k, N=N, m=m) for k in ("ascii", "ACGTnEncoding", "ACTGEncoding") for N in (4, 5) for m in (1, 2)][:-1] + gs + \
+            [dict(kind="ACGTnEncoding", N=4, m=2, api="genomic_sequence")]
 
     def inputs(self, skel, V):
         declare_syms(V, skel["kind"], skel["N"])
         for i in range(skel["m"]):
             s = V.int(f"s{i}", 0, skel["N"]); e = V.int(f"e{i}", 0, skel["N"])
-            V.assume(s.t < e.t)
+            V.assume(s.t <= e.t if skel.get("api") else s.t < e.t)        # the genome sequence object also gets empty intervals
             V.int(f"neg{i}", 0, 1)
 
     def call(self, skel, x, ctx):
@@ -158,6 +162,15 @@ class Stranded(Harness):
         from bionumpy.encoded_array import EncodedArray
         N, m = skel["N"], skel["m"]
         seq = make_seq(ctx, skel["kind"], [x[f"b{i}"] for i in range(N)])
+        if skel.get("api") == "genomic_sequence":
+            from bionumpy.genomic_data.genomic_sequence import GenomicSequence
+            from bionumpy.datatypes import StrandedInterval
+            gseq = GenomicSequence.from_dict({"chr1": seq})
+            iv = StrandedInterval(["chr1"] * m, ctx.arr([x[f"s{i}"] for i in range(m)], "int64"), ctx.arr([x[f"e{i}"] for i in range(m)], "int64"),
+                                  EncodedArray(ctx.arr([x[f"neg{i}"] for i in range(m)], "uint8"), StrandEncoding))
+            out = gseq.extract_intervals(iv, stranded=True)
+            assert len(out) == m, (len(out), m)
+            return dict(rows=[ctx.lst(out[i].raw()) for i in range(m)] if m else [], seq=ctx.lst(seq.raw()))
         iv = Bed6(["c"] * m, ctx.arr([x[f"s{i}"] for i in range(m)], "int64"), ctx.arr([x[f"e{i}"] for i in range(m)], "int64"),
                   ["."] * m, [0] * m, EncodedArray(ctx.arr([x[f"neg{i}"] for i in range(m)], "uint8"), StrandEncoding))
         out = get_strand_specific_sequences(seq, iv)
